@@ -157,6 +157,35 @@ def x_sbt(report):
         raise T.Unrecognised("_dirty", "the flag is used somewhere the model does not know about")
     out["unload_keeps_dirty"] = keep
 
+    # --- legacy loaders: do `_load_v1` / `_load_v2` end with `_fill_min_n_below()` like `_load_v3`?
+    fm = _stmts("tree._fill_min_n_below()")[0]
+    l1 = fm in _body_dump(_func(tree, "SBT", "_load_v1"))
+    l2 = fm in _body_dump(_func(tree, "SBT", "_load_v2"))
+    if fm not in _body_dump(_func(tree, "SBT", "_load_v3")):
+        raise T.Unrecognised("SBT._load_v3", "`tree._fill_min_n_below()` not found")
+    if l1 != l2:
+        raise T.Unrecognised("SBT._load_v1/_load_v2", "only one of the two legacy loaders fills min_n_below")
+    out["legacy_loaders_fill_min_n_below"] = l1
+
+    # --- select on an empty selection
+    sel = _body_dump(_func(tree, "SBT", "select"))
+    if _stmts("first_sig = next(iter(self.signatures()), None)")[0] in sel and \
+            _stmts("if first_sig is None:\n    return self")[0] in sel:
+        sel_ok = True
+    elif _stmts("first_sig = next(iter(self.signatures()))")[0] in sel:
+        sel_ok = False
+    else:
+        raise T.Unrecognised("SBT.select", "how the first signature is pulled is not one of the modelled shapes")
+    out["select_empty_returns_self"] = sel_ok
+
+    # --- node score for a query coarser than the tree
+    fnd = ast.dump(_func(tree, "SBT", "find"))
+    coarse = _stmts("if tree_scaled and scaled != tree_scaled:\n    subj_size = 1")[0] in fnd
+    if _stmts('subj_size = node.metadata.get("min_n_below", -1)')[0] not in fnd or \
+            _stmts("total_size = subj_size")[0] not in fnd:
+        raise T.Unrecognised("SBT.find", "node_search: subj_size / total_size of an internal node not recognised")
+    out["coarse_query_subj_size_one"] = coarse
+
     # --- the clamp
     clamp = _stmts(CLAMP)[0]
     nu = _body_dump(_func(tree, "Node", "update"))
@@ -209,7 +238,13 @@ def x_sbt(report):
     if "b\"OXLI\"" not in sv or "wtr.write_u8(4)?; wtr.write_u8(2)?;" not in sv:
         raise T.Unrecognised("nodegraph header", "OXLI / version 4 / ht_type 2 not recognised")
     wt = T.norm(T.rust_fn_body(rs, "with_tables"))
+    # `(tablesize - 1) as u64` wraps for tablesize = 0 (release build); `tablesize.saturating_sub(1)` (f355fe6) is the
+    # truncated subtraction the model's `Nat` subtraction already is
     m6 = re.search(r"let mut i = u64::max\(\(tablesize - (\d+)\) as u64, (\d+)\); if i % 2 == 0 \{ i -= 1 \}", wt)
+    wt_sat = False
+    if not m6:
+        m6 = re.search(r"let mut i = u64::max\(tablesize\.saturating_sub\((\d+)\) as u64, (\d+)\); if i % 2 == 0 \{ i -= 1 \}", wt)
+        wt_sat = bool(m6)
     m7 = re.search(r"if i == 1 \{ break; \} i -= (\d+);", wt)
     if not m6 or not m7 or "primal_check::miller_rabin(i)" not in wt:
         raise T.Unrecognised("with_tables", "descent over odd candidates not recognised")
@@ -231,6 +266,12 @@ def sbtRebuildFixed : Bool := {"true" if fixed else "false"}
 def sbtAddRebuildsMissing : Bool := {"true" if pre else "false"}
 /-- `Node.unload` keeps a filter updated since it was loaded (`_dirty`, set by the three `update` methods) -/
 def sbtUnloadKeepsDirty : Bool := {"true" if keep else "false"}
+/-- `_load_v1` / `_load_v2` end with `_fill_min_n_below()` (as `_load_v3` does) -/
+def sbtLegacyFillsMin : Bool := {"true" if l1 else "false"}
+/-- `SBT.select` on an empty selection returns the (empty) tree instead of raising StopIteration -/
+def sbtSelectEmptyOk : Bool := {"true" if sel_ok else "false"}
+/-- `find`: an internal node's size is taken as 1 when the query is coarser than the tree -/
+def sbtCoarseSubjOne : Bool := {"true" if coarse else "false"}
 /-- nodegraph.rs: `byte_size = tablesize / ngByteDiv + ngByteAdd`, blocks of `ngBlockBytes` bytes -/
 def ngByteDiv : Nat := {out['byte_div']}
 def ngByteAdd : Nat := {out['byte_add']}
@@ -241,6 +282,8 @@ def ngLoadRefusesZero : Bool := {"true" if out['load_refuses_size_zero'] else "f
 def ngWtSub : Nat := {out['wt_sub']}
 def ngWtMin : Nat := {out['wt_min']}
 def ngWtStep : Nat := {out['wt_step']}
+/-- `with_tables` subtracts with `saturating_sub` (true) or with a wrapping `-` that is only right for `tablesize ≥ 1` (false) -/
+def ngWtSaturating : Bool := {"true" if wt_sat else "false"}
 """
 
 
